@@ -45,7 +45,22 @@ def exhaustive_literals():
 
 def rand_pair(rnd):
     """(a, b) decimal pairs (mantissa, scale) chosen to stress exactness"""
-    k = gen.wchoice(rnd, [("rand", 4), ("eqscale", 2), ("ulp", 3), ("bigsmall", 2), ("carry", 2), ("small", 2), ("samedigits", 2), ("scalesum", 2.5), ("farscales", 3)])
+    k = gen.wchoice(rnd, [("rand", 4), ("eqscale", 2), ("ulp", 3), ("bigsmall", 2), ("carry", 2), ("small", 2), ("samedigits", 2), ("scalesum", 2.5), ("farscales", 3), ("align29", 3)])
+    if k == "align29":
+        # a short number and one with 24-28 decimals: aligning the short one overflows 96 bits for some implementations while the exact
+        # sum / difference (up to 29 significant digits, below 2^96) is representable: 8 - 0.1000000000000000000000000001
+        sb = rnd.randint(24, 28)
+        mb = rnd.randrange(10 ** (sb - 1), 10 ** sb) if rnd.random() < 0.7 else rnd.choice([10 ** (sb - 1) + 1, 10 ** sb - 1, 10 ** (sb - 1) + 10 ** (sb - 28) if sb == 28 else 10 ** (sb - 1) + 7])
+        mb = mb if rnd.random() < 0.7 else mb * rnd.randint(1, 7)
+        mb = min(mb, MAXD)
+        sa = rnd.choice([0, 0, 0, 1, 2, 3])
+        hi = max(1, (MAXD // 10 ** (sb - sa)) - (mb // 10 ** (sb - sa)) - 1) if sb >= sa else 9
+        ma = rnd.randint(1, max(1, min(hi, 10 ** (sa + 2)))) if rnd.random() < 0.8 else max(1, hi)
+        if rnd.random() < 0.3:
+            ma = -ma
+        if rnd.random() < 0.3:
+            mb = -mb
+        return ((ma, sa), (mb, sb)) if rnd.random() < 0.5 else ((mb, sb), (ma, sa))
     if k == "farscales":
         # operands whose scales are far apart: a wide dividend and a divisor with 20-28 decimals (and the reverse)
         sb = rnd.randint(18, 28)
